@@ -108,9 +108,9 @@ package emitter
 //@   ensures [C16:text-marker] len(markersOf(result)) == ((e.enableLineMarkers && len(e.inputFilepath) > 0) ? 1 : 0)
 //@   ensures [C16:text-line] (e.enableLineMarkers && len(e.inputFilepath) > 0) ==> markersOf(result)[0] == marker(text.Token.LineNumber, e.inputFilepath, 1)
 //@   loop 1
-//@     invariant len(sb.pieces) == 1 + $i && $i <= len(lines) && lines == splitStr(text.Value, "\n")
+//@     invariant len(sb.pieces) == 1 + $i && $i <= len(splitStr(text.Value, "\n"))
 //@     invariant sb.pieces[0] == (text.IsGlobal ? sprintf("%s::\n", text.Name) : sprintf("%s:\n", text.Name))
-//@     invariant forall k int :: 0 <= k && k < $i ==> sb.pieces[1+k] == sprintf("\t.%s \"%s\"\n", (len(text.StringType) > 0 ? text.StringType : "string"), lines[k])
+//@     invariant forall k int :: 0 <= k && k < $i ==> sb.pieces[1+k] == sprintf("\t.%s \"%s\"\n", (len(text.StringType) > 0 ? text.StringType : "string"), splitStr(text.Value, "\n")[k])
 //@     invariant sb.markers == ((e.enableLineMarkers && len(e.inputFilepath) > 0) ? snoc(nopieces(), marker(text.Token.LineNumber, e.inputFilepath, 1)) : nopieces())
 //@ end
 
@@ -125,8 +125,8 @@ package emitter
 //@            piecesOf(result)[k] == sprintf("%s\n", splitStr(rawStmt.Value, "\n")[k])
 //@         && markersOf(result)[k] == marker(rawStmt.Token.LineNumber + k, e.inputFilepath, k))))
 //@   loop 1
-//@     invariant lines == splitStr(rawStmt.Value, "\n") && $i <= len(lines) && len(sb.pieces) == $i && len(sb.markers) == $i
-//@     invariant forall k int :: 0 <= k && k < $i ==> (sb.pieces[k] == sprintf("%s\n", lines[k]) && sb.markers[k] == marker(rawStmt.Token.LineNumber + k, e.inputFilepath, k))
+//@     invariant $i <= len(splitStr(rawStmt.Value, "\n")) && len(sb.pieces) == $i && len(sb.markers) == $i
+//@     invariant forall k int :: 0 <= k && k < $i ==> (sb.pieces[k] == sprintf("%s\n", splitStr(rawStmt.Value, "\n")[k]) && sb.markers[k] == marker(rawStmt.Token.LineNumber + k, e.inputFilepath, k))
 //@ end
 
 // ---- branch behaviours (C01, C02, C04, C05) ----
